@@ -257,6 +257,23 @@ func Run(ctx *core.Ctx) int {
 				if !ok {
 					return
 				}
+				// the same with a mid-size value (5 bytes) in place of the long one: contents that sit exactly at the
+				// 12-byte limit and are then updated in place (same size, smaller) must not be refused
+				if c.VT == "bytes" || c.VT == "string" {
+					mid := make([]refmodel.Op, len(alpha))
+					for i, o := range alpha {
+						if len(o.V) > 5 {
+							o.V = "12345"
+						}
+						mid[i] = o
+					}
+					ok := refmodel.Sequences(mid, 3, func(seq []refmodel.Op) bool {
+						return emit(Case{Kind: "limit", Combo: c, Pre: pre, Ops: seq})
+					})
+					if !ok {
+						return
+					}
+				}
 			}
 		}
 	}, Eval)
